@@ -585,6 +585,23 @@ def memo_key(v):
 _NOHOME = object()
 
 
+class Record(dict):
+    """a scenario's stand-in for `a few named pieces handed on together`: readable by key (a dict) and by attribute (a named
+    tuple / small class) -- which of the two the code uses is its business"""
+    _record = True
+
+
+def as_record(v):
+    """the pieces as a plain dict, whatever carries them (dict, named tuple, Obj)"""
+    if isinstance(v, dict):
+        return dict(v)
+    if isinstance(v, tuple) and hasattr(v, "_asdict"):
+        return dict(v._asdict())
+    if isinstance(v, Obj):
+        return dict(v.attrs)
+    return {}
+
+
 class _DefaultDict(dict):
     """collections.defaultdict with one of the builtin factories: a missing key read with d[k] is created"""
 
@@ -781,6 +798,19 @@ class Interp:
         kind, obj = r.resolve_name(m, e.id)
         if kind == "func" and "." not in obj.qualname:
             return Closure(obj.node, None)
+        if kind == "class" and any((A.dotted(b) or "").split(".")[-1] == "NamedTuple" for b in obj.node.bases):
+            import collections as _c
+            fields_, dfl_ = [], []
+            for st_ in obj.node.body:
+                if isinstance(st_, ast.AnnAssign) and isinstance(st_.target, ast.Name):
+                    fields_.append(st_.target.id)
+                    if st_.value is not None:
+                        dfl_.append(self.eval(st_.value))
+                    elif dfl_:
+                        return _NOHOME
+            if fields_ and not any(isinstance(st_, (ast.FunctionDef, ast.AsyncFunctionDef)) for st_ in obj.node.body):
+                nt_ = _c.namedtuple(obj.name, fields_, defaults=dfl_ or None)
+                return PyFunc(lambda a, k, nt_=nt_: nt_(*a, **k), obj.name)
         if kind == "assign":
             store = self.externals.setdefault("__modconst__", {})
             key = id(obj)
@@ -1269,6 +1299,10 @@ class Interp:
                             at_ = at_ + to_poly(nb_[ch_])
                         return out_
                     return Obj(f"{basev.name}.{e.attr}")
+                if isinstance(basev, dict) and getattr(basev, "_record", False) and e.attr in basev:
+                    return basev[e.attr]
+                if isinstance(basev, tuple) and e.attr in getattr(basev, "_fields", ()):
+                    return getattr(basev, e.attr)  # a field of a named tuple
                 if isinstance(basev, Poly) and e.attr in ("dtype", "device"):
                     return Obj(e.attr)
                 if isinstance(basev, Poly) and e.attr == "grad":
@@ -1773,6 +1807,13 @@ class Interp:
         ev = self.eval
         if name == "deepcopy" and args:
             return _deepcopy_value(ev(args[0]))
+        if name == "namedtuple" and "namedtuple" not in self.env and len(args) >= 2:
+            import collections as _c
+            tn_, fl_ = ev(args[0]), ev(args[1])
+            if isinstance(tn_, str) and (isinstance(fl_, str) or (isinstance(fl_, (list, tuple)) and all(isinstance(x_, str) for x_ in fl_))):
+                nt_ = _c.namedtuple(tn_, fl_)
+                return PyFunc(lambda a, k, nt_=nt_: nt_(*a, **k), tn_)
+            raise Undecided("namedtuple with computed field names")
         if name == "defaultdict" and "defaultdict" not in self.env and len(args) <= 1 and not kw:
             fac_ = args[0].id if args and isinstance(args[0], ast.Name) and args[0].id in ("list", "dict", "set", "int") and args[0].id not in self.env else (None if not args or (isinstance(args[0], ast.Constant) and args[0].value is None) else "?")
             if fac_ == "?":
@@ -1848,6 +1889,10 @@ class Interp:
             v = ev(args[0])
             if isinstance(v, (list, tuple)):
                 tot = Poly()
+                if isinstance(f, ast.Name) and (len(args) > 1 or "start" in kw):
+                    tot = ev(args[1] if len(args) > 1 else kw["start"])  # builtin sum(iterable, start)
+                    if not isinstance(tot, Poly):
+                        raise Undecided("sum() with a start value that is not a number")
                 for x in v:
                     tot = tot + to_poly(x)
                 return tot
@@ -1949,7 +1994,10 @@ class Interp:
             s = ev(args[0])
             if not isinstance(s, (list, tuple)):
                 raise Undecided("enumerate")
-            return [(Poly.const(i), x) for i, x in enumerate(s)]
+            st_ = to_poly(ev(args[1] if len(args) > 1 else kw["start"])) if (len(args) > 1 or "start" in kw) else Poly.const(0)
+            if set(kw) - {"start"}:
+                raise Undecided("enumerate with an unknown keyword")
+            return [(st_ + Poly.const(i), x) for i, x in enumerate(s)]
         if name == "len":
             s = ev(args[0])
             if isinstance(s, Obj) and "__len__" in self.externals:
@@ -2003,6 +2051,10 @@ class Interp:
                 if len(args) > 2:
                     return ev(args[2])
                 return Obj(f"{o.name}.{nm}")
+            if isinstance(o, tuple) and isinstance(nm, str) and nm in getattr(o, "_fields", ()):
+                return getattr(o, nm)
+            if isinstance(o, dict) and getattr(o, "_record", False) and isinstance(nm, str) and nm in o:
+                return o[nm]
             raise Undecided("getattr")
         if name == "bool":
             return self.truth(ev(args[0]))
@@ -2252,6 +2304,8 @@ class Interp:
             hv = self._home_name(f)
             if isinstance(hv, Closure):
                 return self._call_closure(hv, self.eval_args(e.args), self.eval_kwargs(e.keywords))
+            if isinstance(hv, PyFunc):
+                return hv.f(self.eval_args(e.args), self.eval_kwargs(e.keywords))
         if isinstance(f, ast.Attribute) and isinstance(f.value, ast.Name) and f.value.id == "self" and f.attr not in self.methods and self._mangle(f.attr) not in self.selfattrs:
             mn = self._home_method(e, f.attr)
             if mn is not None:
